@@ -47,6 +47,22 @@ func (x *Exec) callCommon(fr *frame, st *State, cc *ssa.CallCommon, fnv Value, a
 		}
 	}
 	if callee == nil {
+		if fr.top && x.fc != nil && (len(x.fc.CbModifies) > 0 || len(x.fc.CbEnsures) > 0 || len(x.fc.CbRequires) > 0) {
+			// a call through a function value, governed by the callback contract of the unit
+			n := x.count(fr.name + "#callback")
+			for i, c := range x.fc.CbRequires {
+				g := x.evalGoalClause(fr, st, c, x.loopOpts(fr, nil))
+				x.vc.oblige(&Obligation{Name: fmt.Sprintf("%s#callback@%d.pre%d", fr.name, n, i+1), Kind: "pre", Func: fr.name, Guard: st.reach, Goal: g, Src: c.Src})
+			}
+			for _, m := range x.fc.CbModifies {
+				x.havocPathExpr(fr, st, m, x.loopOpts(fr, nil))
+			}
+			for _, c := range x.fc.CbEnsures {
+				x.vc.assume(mkImplies(st.reach, x.evalBoolClause(fr, st, c, x.loopOpts(fr, nil))), "callback contract")
+			}
+			x.vc.note("calls through function values in " + fr.name + " are governed by the unit's callback contract (assumed for the callbacks, which are verified separately)")
+			return x.freshOpaqueOrValueSig(cc.Signature(), "callback")
+		}
 		return x.externCall(fr, st, "dynamic call", cc.Signature(), args, site)
 	}
 	name := shortFuncName(callee)
@@ -144,6 +160,19 @@ func (x *Exec) intrinsic(fr *frame, st *State, name string, args []Value) (Value
 	case "math/bits.TrailingZeros64":
 		return Sc{T: T{"(tz64 " + one().S + ")", bvSort(64)}, Signed: true}, true
 	case "math/bits.OnesCount64":
+		if x.isOpaque("popcnt64") {
+			// the count is abstracted to an uninterpreted value in [0, 64] (sound: only its range is used)
+			if x.ufs == nil {
+				x.ufs = map[string]ufInfo{}
+			}
+			if _, ok := x.ufs["uf.popcnt64"]; !ok {
+				x.vc.decls = append(x.vc.decls, "(declare-fun uf.popcnt64 ((_ BitVec 64)) (_ BitVec 64))")
+				x.ufs["uf.popcnt64"] = ufInfo{bvSort(64), true, 1}
+			}
+			t := x.vc.def("pc", T{"(uf.popcnt64 " + one().S + ")", bvSort(64)})
+			x.vc.assume(mkAnd(bvcmp("bvsle", lit(64, 0), t), bvcmp("bvsle", t, lit(64, 64))), "range of a population count")
+			return Sc{T: t, Signed: true}, true
+		}
 		return Sc{T: T{"(popcnt64 " + one().S + ")", bvSort(64)}, Signed: true}, true
 	case "math/bits.Len64":
 		return Sc{T: T{"(len64 " + one().S + ")", bvSort(64)}, Signed: true}, true
